@@ -131,6 +131,17 @@ def r13_4(run):
             for h in handlers:
                 swallow = EXIT in cfg.reachable_from(h)
                 w = cfg.all_paths_hit(h, rel, exits=(RAISE,))
+                # nothing that can fail may run in the handler before the release
+                import networkx as nx
+                before = set()
+                for r_ in rel:
+                    if r_ in cfg.reachable_from(h):
+                        before |= (nx.descendants(cfg.g, h) & nx.ancestors(cfg.g, r_))
+                risky = [n_ for n_ in sorted(before) if n_ not in rel and isinstance(cfg.stmt.get(n_), ast.stmt)
+                         and any(isinstance(x, ast.Call) for x in ast.walk(cfg.stmt[n_]))]
+                run.ob("R13.4", loc(fi, cfg.stmt[risky[0]]) if risky else loc(fi, cfg.stmt[h]), fi.short, f"[{label}] the handler calls nothing before releasing the locks",
+                       not risky, "release is the first call of the handler" if not risky else
+                       f"`{norm(cfg.stmt[risky[0]])[:50]}` runs before the release: if it raises, the handler is left and the input locks leak")
                 run.ob("R13.4", loc(fi, cfg.stmt[h]), fi.short, f"[{label}] handler releases the locked collection and re-raises",
                        (not swallow) and w is None,
                        "handler cannot reach EXIT (never swallows) and every path to RAISE passes the release"
